@@ -37,6 +37,7 @@ type StreamConfig struct {
 	TempErr     []int  `json:"temp_err,omitempty"`      // read indices at which a transient error is injected
 	ErrWithData bool   `json:"err_with_data,omitempty"` // transient error returned together with n>0
 	EofAt       int    `json:"eof_at"`                  // -1: EOF after the last byte; else stream cut at this byte offset
+	EofWithData bool   `json:"eof_with_data,omitempty"` // fw: the last bytes of the stream come together with io.EOF in one Read result (io.Reader allows it)
 	// dgram, udp: the blocks travel in datagrams - consecutive whole blocks, as many as fit the budget Reads[k] (at
 	// least one, never more than the maximum packet size) - and every datagram is framed on its own. Hostile lists
 	// datagrams that no decoder accepts, slipped in between (C04: they must change nothing but counters)
@@ -156,6 +157,10 @@ type Block struct {
 	T int `json:"t"`           // TLV type number
 	L int `json:"l"`           // value length
 	N int `json:"n,omitempty"` // repeat count (N identical-shape blocks with distinct contents); 0 = 1
+	// LF: the length is written in a longer form than it needs (3: fd xx xx, 5: fe xx xx xx xx). The packet format
+	// asks for the shortest form, every decoder of the repository accepts the others; the framing may refuse such a
+	// stream with an error - it must not hand on anything but the blocks as they were sent
+	LF int `json:"lf,omitempty"`
 }
 
 type StreamEngine struct{}
@@ -189,10 +194,22 @@ func putTLNum(b []byte, v int) []byte {
 	}
 }
 
-func blockBytes(idx int, t, l int) []byte {
+func putTLNumForm(b []byte, v int, form int) []byte {
+	switch {
+	case form == 3 && v <= 0xffff:
+		return append(b, 0xfd, byte(v>>8), byte(v))
+	case form == 5:
+		return append(b, 0xfe, byte(v>>24), byte(v>>16), byte(v>>8), byte(v))
+	}
+	return putTLNum(b, v)
+}
+
+func blockBytes(idx int, t, l int) []byte { return blockBytesForm(idx, t, l, 0) }
+
+func blockBytesForm(idx int, t, l int, lf int) []byte {
 	b := make([]byte, 0, 10+l)
 	b = putTLNum(b, t)
-	b = putTLNum(b, l)
+	b = putTLNumForm(b, l, lf)
 	for j := 0; j < l; j++ {
 		b = append(b, byte(idx*31+j*7+(j>>8)))
 	}
@@ -263,6 +280,7 @@ func (StreamEngine) Generate(prop string, r *kit.Rand, tier string) *kit.Scenari
 	}
 	types := []int{5, 6, 100, 0x64, 253, 800, 0x10000, 0x12345}
 	sum := 0
+	longLF := (c.Target == "fw" || c.Target == "std") && r.Chance(0.05)
 	for sum < total {
 		var l int
 		switch r.Weighted([]int{4, 3, 2, 2, 2}) {
@@ -288,8 +306,18 @@ func (StreamEngine) Generate(prop string, r *kit.Rand, tier string) *kit.Scenari
 		if r.Chance(0.3) {
 			n = r.Range(2, 40)
 		}
-		sc.Ops = append(sc.Ops, Block{T: t, L: l, N: n})
-		sum += n * (tlnumLen(t) + tlnumLen(l) + l)
+		blk := Block{T: t, L: l, N: n}
+		if longLF && r.Chance(0.3) {
+			blk.LF = kit.Pick(r, []int{3, 3, 5})
+			if blk.LF == 3 && l > 0xfc {
+				blk.LF = 5
+			}
+			for tlnumLen(t)+blk.LF+blk.L > maxPkt {
+				blk.L--
+			}
+		}
+		sc.Ops = append(sc.Ops, blk)
+		sum += n * (len(blockBytesForm(0, blk.T, blk.L, blk.LF)))
 	}
 	// chunk schedule
 	switch r.Weighted([]int{3, 3, 3, 2, 2, 2}) {
@@ -325,6 +353,9 @@ func (StreamEngine) Generate(prop string, r *kit.Rand, tier string) *kit.Scenari
 	}
 	if r.Chance(0.3) || (c.Target == "tcpout" && r.Chance(0.8)) {
 		c.EofAt = r.Range(0, sum)
+	}
+	if c.Target == "fw" && c.EofAt < 0 && r.Chance(0.15) {
+		c.EofWithData = true
 	}
 	if c.Target == "dgram" || c.Target == "udp" {
 		// Reads are the datagrams' size budgets; nothing is cut (a datagram arrives whole or not at all)
@@ -363,6 +394,9 @@ func (StreamEngine) Simplify(sc *kit.Scenario[StreamConfig, Block]) []*kit.Scena
 	if sc.Config.EofAt >= 0 {
 		modC(func(c *StreamConfig) { c.EofAt = -1 })
 	}
+	if sc.Config.EofWithData {
+		modC(func(c *StreamConfig) { c.EofWithData = false })
+	}
 	for i := range sc.Config.Hostile {
 		i := i
 		modC(func(c *StreamConfig) {
@@ -396,6 +430,11 @@ func (StreamEngine) Simplify(sc *kit.Scenario[StreamConfig, Block]) []*kit.Scena
 			ops[i].T = 5
 			out = append(out, sc.WithOps(ops))
 		}
+		if b.LF != 0 {
+			ops := append([]Block(nil), sc.Ops...)
+			ops[i].LF = 0
+			out = append(out, sc.WithOps(ops))
+		}
 	}
 	return out
 }
@@ -415,6 +454,7 @@ type chunkReader struct {
 	inHdr    func(off int) bool
 	hdrEnds  int
 	spun     bool
+	eofWith  bool // the last bytes come together with io.EOF
 }
 
 func (c *chunkReader) Read(p []byte) (int, error) {
@@ -468,6 +508,10 @@ func (c *chunkReader) Read(p []byte) (int, error) {
 	if n == 1 {
 		c.ctx.Probe("one-byte-read")
 	}
+	if c.eofWith && c.off >= len(c.data) {
+		c.ctx.Fault("eof-together-with-last-bytes")
+		return n, io.EOF
+	}
 	return n, nil
 }
 
@@ -478,14 +522,18 @@ func (e StreamEngine) Run(t *testing.T, ctx *kit.Ctx, sc *kit.Scenario[StreamCon
 	var stream []byte
 	hdr := map[int]bool{} // offsets strictly inside a T/L header
 	idx := 0
+	longForms := false
 	for _, b := range sc.Ops {
 		n := b.N
 		if n < 1 {
 			n = 1
 		}
 		for k := 0; k < n; k++ {
-			bb := blockBytes(idx, b.T, b.L)
-			h := tlnumLen(b.T) + tlnumLen(b.L)
+			bb := blockBytesForm(idx, b.T, b.L, b.LF)
+			h := len(bb) - b.L
+			if b.LF != 0 {
+				longForms = true
+			}
 			for o := 1; o < h; o++ {
 				hdr[len(stream)+o] = true
 			}
@@ -533,7 +581,7 @@ func (e StreamEngine) Run(t *testing.T, ctx *kit.Ctx, sc *kit.Scenario[StreamCon
 	switch sc.Config.Target {
 	case "fw":
 		rd := &chunkReader{data: data, reads: reads, tempErr: tempErr, withData: sc.Config.ErrWithData, ctx: ctx,
-			maxCalls: 4*len(data) + 100000, inHdr: func(o int) bool { return hdr[o] }}
+			maxCalls: 4*len(data) + 100000, inHdr: func(o int) bool { return hdr[o] }, eofWith: sc.Config.EofWithData}
 		runErr = face.VerifReadTlvStream(rd, func(f []byte) {
 			got = append(got, append([]byte(nil), f...)) // copy inside the callback, as the link service does
 		}, func(err error) bool { return errors.Is(err, errTransient) })
@@ -824,6 +872,24 @@ func (e StreamEngine) Run(t *testing.T, ctx *kit.Ctx, sc *kit.Scenario[StreamCon
 			return fail("C04/undecodable-datagram-changed-state", key+"/frames-lost-or-invented", "%d blocks sent in well-formed datagrams, %d frames delivered", len(want), len(got))
 		}
 	}
+	if runErr != nil && longForms {
+		// refusing a stream whose lengths are not in the shortest form is within the packet format; what was handed
+		// on before the refusal must still be the blocks as sent
+		ctx.Probe("stream-with-longer-length-forms-refused")
+		if len(got) > len(want) {
+			return fail("C11/frames-duplicated-or-invented", key, "%d blocks sent, %d frames delivered", len(want), len(got))
+		}
+		for i := range got {
+			if !bytes.Equal(got[i], want[i]) {
+				return fail("C11/frame-altered", key+"/longer-length-form", "frame %d: got %d bytes, block sent was %d bytes (first difference at %d)", i, len(got[i]), len(want[i]), firstDiff(got[i], want[i]))
+			}
+		}
+		res.Steps = len(blocks)
+		return res
+	}
+	if longForms {
+		ctx.Probe("stream-with-longer-length-forms")
+	}
 	if runErr != nil {
 		return fail("C11/well-formed-stream-rejected", key, "framing stopped with error %v after %d of %d blocks", runErr, len(got), len(want))
 	}
@@ -845,9 +911,9 @@ func (e StreamEngine) Run(t *testing.T, ctx *kit.Ctx, sc *kit.Scenario[StreamCon
 	wraps := len(data) / (maxPkt * 32)
 	ctx.ProbeN("buffer-wraps", wraps)
 	res.NonTrivial = (wraps >= 1 && hdrEnds > 0) || (sc.Config.Target != "fw" && len(blocks) > 3)
-	d := kit.NewDigest().S(fmt.Sprint(sc.Config.Hostile)).I(len(blocks)).I(len(data)).S(strings.Trim(fmt.Sprint(sc.Config.Reads), "[]")).I(sc.Config.EofAt).S(sc.Config.Target).I(sc.Config.FaceMtu).I(sc.Config.PauseMs).S(fmt.Sprint(sc.Config.PauseAt))
+	d := kit.NewDigest().S(fmt.Sprint(sc.Config.Hostile, sc.Config.EofWithData)).I(len(blocks)).I(len(data)).S(strings.Trim(fmt.Sprint(sc.Config.Reads), "[]")).I(sc.Config.EofAt).S(sc.Config.Target).I(sc.Config.FaceMtu).I(sc.Config.PauseMs).S(fmt.Sprint(sc.Config.PauseAt))
 	for _, b := range sc.Ops {
-		d.I(b.T).I(b.L).I(b.N)
+		d.I(b.T).I(b.L).I(b.N).I(b.LF)
 	}
 	res.Digest = d.Sum()
 	ctx.State(res.Digest)
